@@ -13,6 +13,7 @@ import itertools
 import operator
 import pickle as _pickle
 import warnings
+from fractions import Fraction
 
 import numpy as np
 
@@ -718,6 +719,15 @@ def _fd(name):
     return f
 
 
+def _is_arraylike(a):
+    return isinstance(a, np.ndarray) or is_field(a)
+
+
+def _builtin_dtype(a):
+    """the Python type that names the dtype of `a` (float for float64, complex for complex128, ...), else the dtype itself"""
+    return {'float64': float, 'complex128': complex, 'bool': bool, 'int64': int}.get(np.asarray(a).dtype.name, np.asarray(a).dtype)
+
+
 def _sorted_inplace(a):
     b = a.copy()
     r = b.sort()
@@ -816,9 +826,32 @@ EXT = {
     'shape': dict(f=lambda a: tuple(int(n) for n in a.shape), ar=1), 'dtype': dict(f=lambda a: str(a.dtype), ar=1),
     'nbytes': dict(f=lambda a: int(a.nbytes), ar=1), 'itemsize': dict(f=lambda a: int(a.itemsize), ar=1),
     'iter': dict(f=lambda a: tuple(x for x in a), ar=1), 'contains': dict(f=lambda a: (a.ravel()[0] in a.ravel()), ar=1),
-    'asarray_c': dict(f=lambda a: np.asarray(a, dtype=complex), ar=1), 'array': dict(f=lambda a: np.array(a), ar=1),
+    'asarray_c': dict(f=lambda a: np.asarray(a, dtype=complex), ar=1), 'array': dict(f=lambda a: np.array(a), ar=1, mem='copy'),
     'allclose': dict(f=lambda a, b: bool(np.allclose(a, a)), ar=2), 'array_equal': dict(f=lambda a, b: bool(np.array_equal(a, a + 0)), ar=2),
-    'npcopy': dict(f=lambda a: np.copy(a), ar=1),      # subok=False: a bare ndarray under the subclass
+    'npcopy': dict(f=lambda a: np.copy(a), ar=1, mem='copy'),      # subok=False: a bare ndarray under the subclass
+    # conversions through the array protocol (`__array__(dtype, copy)` of the wrapper, ndarray's own rules for the subclass):
+    # every spelling of dtype x copy.  `mem` says what NumPy's contract is - 'copy': an independent snapshot, 'share': the
+    # same memory - so the result is read again at the end of the program after in-place updates of the converted variable.
+    'array_same': dict(f=lambda a: np.array(a, dtype=a.dtype), ar=1, mem='copy'),
+    'array_same_copy': dict(f=lambda a: np.array(a, dtype=a.dtype, copy=True), ar=1, mem='copy'),
+    'array_builtin': dict(f=lambda a: np.array(a, dtype=_builtin_dtype(a)), ar=1, mem='copy'),
+    'array_name': dict(f=lambda a: np.array(a, dtype=a.dtype.name), ar=1, mem='copy'),
+    'array_copy_kw': dict(f=lambda a: np.array(a, copy=True), ar=1, mem='copy'),
+    'array_order': dict(f=lambda a: np.array(a, dtype=a.dtype, order='K'), ar=1, mem='copy'),
+    'array_wider': dict(f=lambda a: np.array(a, dtype=complex), ar=1, mem='copy'),
+    'dunder_array_copy': dict(f=lambda a: a.__array__(a.dtype, copy=True), ar=1, mem='copy'),
+    'dunder_array_copy_nodtype': dict(f=lambda a: a.__array__(copy=True), ar=1, mem='copy'),
+    'astype_same': dict(f=lambda a: a.astype(a.dtype), ar=1, mem='copy'),
+    # (copy=False cannot be honoured for a NumPy scalar - a 0-d result is a scalar on plain arrays and under the wrapper, a 0-d Field under the subclass)
+    'array_nocopy': dict(f=lambda a: np.array(a, copy=False) if _is_arraylike(a) else np.array(a), ar=1, mem='share'),
+    'array_same_nocopy': dict(f=lambda a: np.array(a, dtype=a.dtype, copy=False) if _is_arraylike(a) else np.array(a, dtype=a.dtype), ar=1, mem='share'),
+    'asarray': dict(f=lambda a: np.asarray(a), ar=1, mem='share'),
+    'asarray_same': dict(f=lambda a: np.asarray(a, dtype=a.dtype), ar=1, mem='share'),
+    'asarray_builtin': dict(f=lambda a: np.asarray(a, dtype=_builtin_dtype(a)), ar=1, mem='share'),
+    'asanyarray': dict(f=lambda a: np.asanyarray(a), ar=1, mem='share'),
+    'dunder_array': dict(f=lambda a: a.__array__(), ar=1, mem='share'),
+    'dunder_array_same': dict(f=lambda a: a.__array__(a.dtype), ar=1, mem='share'),
+    'astype_same_nocopy': dict(f=lambda a: a.astype(a.dtype, copy=False), ar=1, mem='share'),
     'zeros_like': dict(f=lambda a: np.zeros_like(a), ar=1), 'full_like': dict(f=lambda a: np.full_like(a, 2.5), ar=1),
     # library field operators
     'field_dot': dict(fieldonly=True, f=_fd('field_dot'), ar=2), 'field_trace': dict(fieldonly=True, f=_fd('field_trace'), ar=1),
@@ -857,6 +890,9 @@ DIFF_ONLY_WHY = {
     'order not specified by NumPy or index-valued helpers': ['partition', 'nonzero', 'compress', 'choose', 'searchsorted', 'put', 'npput', 'flat_set'],
     'not array-valued (conversions, attributes, containers)': ['item', 'tolist', 'flat', 'bool1', 'boolmany', 'float0d', 'int0d', 'complex0d', 'len', 'size', 'ndim', 'shape',
         'dtype', 'nbytes', 'itemsize', 'iter', 'contains', 'asarray_c', 'allclose', 'array_equal', 'zeros_like', 'full_like'],
+    'conversions through the array protocol: dtype x copy spellings (memory relation to the source is what is checked; reference model FieldRef: array / asarray)': [
+        'array_same', 'array_same_copy', 'array_builtin', 'array_name', 'array_copy_kw', 'array_order', 'array_wider', 'dunder_array_copy', 'dunder_array_copy_nodtype',
+        'astype_same', 'array_nocopy', 'array_same_nocopy', 'asarray', 'asarray_same', 'asarray_builtin', 'asanyarray', 'dunder_array', 'dunder_array_same', 'astype_same_nocopy'],
     'further hcipy tensor-field functions (einsum with size-1 broadcasting, determinants, …)': ['field_transpose', 'field_conjugate_transpose', 'field_kron', 'field_determinant',
         'field_adjoint', 'field_cross'],
 }
@@ -1276,6 +1312,10 @@ class Builder:
         else:
             names = sorted(EXT)
             name = names[int(rng.integers(0, len(names)))]
+            if rng.random() < 0.1:
+                # conversions through the array protocol (copy / share contract) get a share of their own
+                names = sorted(n for n in EXT if EXT[n].get('mem'))
+                name = names[int(rng.integers(0, len(names)))]
             if EXT[name].get('fieldonly'):
                 # library functions for Fields: only on values that are Fields under both styles
                 to, tn = self.tags_of(base) if base[0] != 'ext' else ('?', '?')
@@ -1566,6 +1606,9 @@ class Builder:
             return self.observable_view(e[2])
         if t == 'un' and e[1] in ('re', 'im'):
             return self.observable_view(e[3])
+        if t == 'ext' and EXT[e[1]].get('mem'):
+            # conversions whose memory relation to the source is fixed by NumPy's contract (copy / share)
+            return all(self.observable_view(x) for x in e[2])
         return False
 
     def kill_views(self, x):
@@ -2108,11 +2151,29 @@ def _reuse_makers():
         return ft, pg, ft.output_grid
     R['fft1d'] = (fft1d, ('emulate',))
 
+    def tf2(g):
+        return h.Field(np.exp(-(g.as_('polar').r / 20.0)**2) * np.exp(0.05j * g.x), g)
+
     def filt(p):
         pg = pupil(p, rect=True)
-        ff = h.FourierFilter(pg, lambda g: h.Field(np.exp(-(g.as_('polar').r / 20.0)**2) * np.exp(0.05j * g.x), g), p['q'])
+        # padding per axis: uniform, x only, y only (the crop of the padded work array is contiguous for one of them)
+        q = [p['q'], [p['q'] + 1, 1], [1, p['q'] + 1], [p['q'], 1 + p['q'] % 2]][p['nairy'] % 4]
+        ff = h.FourierFilter(pg, tf2, q)
         return ff, pg, pg
     R['filter'] = (filt, ('emulate',))
+
+    def filt1d(p):
+        pg = h.make_uniform_grid([p['n'] + 3], [1.0])
+        ff = h.FourierFilter(pg, lambda g: h.Field(np.exp(-(g.x / 20.0)**2) * np.exp(0.05j * g.x), g), 1 + p['q'] % 3)
+        return ff, pg, pg
+    R['filter1d'] = (filt1d, ('emulate',))
+
+    def fftq(p):
+        # anisotropic zero padding (per-axis q), no shift
+        pg = pupil(p, rect=True)
+        ft = h.FastFourierTransform(pg, [[1, p['q'] + 1], [p['q'] + 1, 1], [2, 3]][p['nairy'] % 3], 1)
+        return ft, pg, ft.output_grid
+    R['fftq'] = (fftq, ('emulate',))
 
     def nft(p):
         pg = h.make_pupil_grid(min(p['n'], 10)); fg = h.make_focal_grid(2, 2)
@@ -2175,14 +2236,15 @@ def _reuse_field(grid, call, complex_only):
 def run_reuse(name, params, script, combo, fresh):
     """the script on ONE object (fresh=False) or on a new object per call (fresh=True)"""
     make, _ = _reuse_makers()[name]
-    complex_only = name == 'filter'
+    complex_only = name in ('filter', 'filter1d')
     out = []
     with config(**combo), warnings.catch_warnings():
         warnings.simplefilter('error')
         warnings.filterwarnings('ignore', category=SyntaxWarning)
         warnings.filterwarnings('ignore', category=DeprecationWarning)
         obj = None
-        for call in script:
+        retained = []          # (call index, the result object itself, its values when it was returned)
+        for i, call in enumerate(script):
             if obj is None or fresh:
                 obj, gin, gout = make(params)
             f = _reuse_field(gin if call[0] == 'f' else gout, call, complex_only)
@@ -2191,14 +2253,43 @@ def run_reuse(name, params, script, combo, fresh):
             if not np.array_equal(keep, np.asarray(f)):
                 out.append(('input-modified', None))
                 continue
-            out.append((np.array(np.asarray(res)), str(np.asarray(res).dtype)))
+            snap = np.array(np.asarray(res))
+            out.append((snap, str(np.asarray(res).dtype)))
+            if fresh:
+                continue
+            # results handed out earlier must still hold what they held when they were returned: a later call on the
+            # same object must not write into them (a result that is a view of a work buffer, of a cached matrix, …)
+            for j, r, sn in retained:
+                if not np.array_equal(np.asarray(r), sn, equal_nan=True):
+                    out[j] = ('result-overwritten', None, 'the result of call %d %r was changed by call %d %r on the same object' % (j, script[j], i, call))
+            retained = [t for t in retained if out[t[0]][1] is not None]
+            # … nor may the result depend on its input afterwards, or a later call on what the caller does with an earlier result:
+            # the input of this call and the result of the previous call are overwritten by the caller now
+            try:
+                np.asarray(f)[...] = 7
+            except ValueError:
+                pass
+            if not np.array_equal(np.asarray(res), snap, equal_nan=True):
+                out[i] = ('result-overwritten', None, 'the result of call %d %r changed when the caller overwrote the input field afterwards' % (i, call))
+                continue
+            if retained and (i + script[i][3]) % 2 == 0:
+                j, r, sn = retained[-1]
+                try:
+                    np.asarray(r)[...] = -3
+                    retained[-1] = (j, r, np.array(np.asarray(r)))
+                except ValueError:
+                    pass
+            retained.append((i, res, snap))
     return out
 
 
 def compare_reuse(ref, out, script):
     for i, (a, b) in enumerate(zip(ref, out)):
+        for t in (a, b):
+            if isinstance(t[0], str) and t[0] == 'result-overwritten':
+                return i, t[2] + ', so at the end of the script it differs'
         if a[1] is None or b[1] is None:
-            if a[0] is not b[0] and not (a[1] is None and b[1] is None):
+            if not (a[1] is None and b[1] is None):
                 return i, 'the input field was modified'
             continue
         if a[1] != b[1]:
@@ -3125,6 +3216,727 @@ def _shared_buffer_corpus():
     return progs
 
 
+def _conversion_corpus():
+    """every array-protocol conversion spelling (copy / share contract) of a real and a complex Field, followed by an in-place
+    update of the converted Field (three kinds in rotation); the converted value is read at the end (`final_views`)"""
+    three = ['scal', 'r', 3.0, 0.0, 0]
+    upd = [lambda: ['iop', 0, 'mul', three], lambda: ['setix', 0, 'atl', [1], ['scal', 'r', -7.0, 0.0, 0]],
+           lambda: ['out', 0, 'sub', ['var', 0], three], lambda: ['fill', 0, three]]
+    progs = []
+    for k, name in enumerate(sorted(n for n in EXT if EXT[n].get('mem'))):
+        for cplx in (False, True):
+            f0 = _f(0, [4, -2, 3, 1], 'c' if cplx else 'r', [1, 1, 2, 2] if cplx else None)
+            stmts = [['assign', 0, f0], ['assign', 1, ['ext', name, [['var', 0]]]], upd[(k + cplx) % len(upd)]()]
+            progs.append({'grids': [{'dims': [4], 'sep': True}], 'final': [0], 'final_views': [1], 'stmts': stmts})
+    return progs
+
+
+# ---------------------------------------------------------------------------------------------
+# reference model (Model/FieldRef.lean): buffers, windows, grid objects — copy / pickle / views / conversions / write-through
+
+REF_OPS = 'N F A C P S V Y W I'.split()
+
+
+def gen_ref_script(rng, nops):
+    """ops of the reference model; tracks lengths / kinds so that almost every op is valid"""
+    ops, info, nv = [], {}, 0          # info[x] = (length, is_field)
+    def fresh():
+        nonlocal nv
+        nv += 1
+        return nv - 1
+    k = int(rng.integers(1, 7))
+    ops.append(['N', fresh(), int(rng.integers(0, 4)), [int(v) for v in rng.integers(-9, 10, k)]])
+    info[0] = (k, True)
+    while len(ops) < nops:
+        op = str(rng.choice(['N', 'F', 'A', 'C', 'P', 'S', 'S', 'V', 'Y', 'W', 'W', 'I', 'W', 'I']))
+        x = int(rng.choice(sorted(info)))
+        n, isf = info[x]
+        if op == 'N':
+            k = int(rng.integers(1, 7))
+            y = fresh(); ops.append(['N', y, int(rng.integers(0, 4)), [int(v) for v in rng.integers(-9, 10, k)]]); info[y] = (k, True)
+        elif op == 'F':
+            if not isf:
+                continue
+            y = fresh(); ops.append(['F', y, x, [int(v) for v in rng.integers(-9, 10, n)]]); info[y] = (n, True)
+        elif op in ('A', 'C', 'P', 'V', 'Y'):
+            # the target is a new name, or (sometimes) an existing one: rebinding must not disturb the other names
+            y = fresh() if rng.random() < 0.85 else int(rng.choice(sorted(info)))
+            ops.append([op, y, x]); info[y] = (n, isf and op in ('A', 'C', 'P'))
+        elif op == 'S':
+            step = int(rng.integers(1, 4)); start = int(rng.integers(0, n + 1))
+            ln = int(rng.integers(0, max(0, (n - start + step - 1) // step) + 1))
+            if rng.random() < 0.04:
+                ln += 2                   # out of range for the model: NumPy clips a slice, so this is never sent as such
+                continue
+            y = fresh(); ops.append(['S', y, x, start, step, ln]); info[y] = (ln, isf)
+        elif op == 'W':
+            if n == 0 and rng.random() < 0.7:
+                continue
+            i = int(rng.integers(0, n)) if (n and rng.random() < 0.96) else n + int(rng.integers(0, 2))
+            ops.append(['W', x, i, int(rng.integers(-20, 21))])
+            if i >= n:
+                break
+        else:
+            ops.append(['I', x, int(rng.integers(-5, 6))])
+    return ops
+
+
+def ref_line(ops, sty='good'):
+    toks = ['C19', 'ref', sty]
+    for o in ops:
+        toks += [str(t) if not isinstance(t, list) else '[' + ','.join(str(v) for v in t) + ']' for t in o]
+    return ' '.join(toks)
+
+
+def _mem_root(a):
+    """the object that owns the memory of `a` (end of the `.base` chain)"""
+    a = a.data if (is_field(a) and not isinstance(a, np.ndarray)) else a
+    a = np.asarray(a) if not isinstance(a, np.ndarray) else a
+    while isinstance(getattr(a, 'base', None), np.ndarray):
+        a = a.base
+    return a
+
+
+def run_ref_real(ops, new_style):
+    """the script on the real code; per op the dump [(name, kind, values, memory owner, grid object, grid content)] or 'E'"""
+    import hcipy as h
+    env, dumps, keep = {}, [], []
+    with config(new_style=new_style), warnings.catch_warnings():
+        warnings.simplefilter('ignore')
+        for o in ops:
+            try:
+                t = o[0]
+                if t == 'N':
+                    g = h.make_uniform_grid([len(o[3])], [float(o[2] + 1)])
+                    env[o[1]] = h.Field(np.array(o[3], dtype=float), g)
+                elif t == 'F':
+                    env[o[1]] = h.Field(np.array(o[3], dtype=float), env[o[2]].grid)
+                elif t == 'A':
+                    env[o[1]] = env[o[2]]
+                elif t == 'C':
+                    env[o[1]] = env[o[2]].copy()
+                elif t == 'P':
+                    env[o[1]] = _pickle.loads(_pickle.dumps(env[o[2]], protocol=2 + len(ops) % 4))
+                elif t == 'S':
+                    env[o[1]] = env[o[2]][o[3]:o[3] + o[4] * o[5]:o[4]]
+                elif t == 'V':
+                    env[o[1]] = np.asarray(env[o[2]])
+                elif t == 'Y':
+                    env[o[1]] = np.array(env[o[2]], dtype=np.asarray(env[o[2]]).dtype)
+                elif t == 'W':
+                    env[o[1]][o[2]] = o[3]
+                elif t == 'I':
+                    x = env[o[1]]
+                    x += o[2]
+                    env[o[1]] = x
+                else:
+                    raise MachineryError('ref op %r' % (o,))
+            except MachineryError:
+                raise
+            except Exception as e:  # noqa
+                dumps.append('E:' + type(e).__name__)
+                break
+            d = []
+            for x in sorted(env):
+                v = env[x]
+                keep.append(v)
+                root = _mem_root(v)
+                keep.append(root)
+                isf = is_field(v)
+                g = v.grid if isf else None
+                # grid content: read back from the grid itself (extent = content + 1)
+                gc = None
+                if g is not None:
+                    gc = int(round(float(np.ravel(g.delta)[0]) * g.size - 1))
+                d.append((x, 'f' if isf else 'a', [float(q) for q in np.asarray(v).ravel()], id(root), id(g) if g is not None else None, gc))
+            dumps.append(d)
+    return dumps
+
+
+def _canon_dump(d):
+    """ids -> rank of first appearance within the dump"""
+    bm, gm, out = {}, {}, []
+    for x, kind, vals, b, g, gc in d:
+        bm.setdefault(b, len(bm))
+        if g is not None:
+            gm.setdefault(g, len(gm))
+        out.append((x, kind, tuple(vals), bm[b], gm[g] if g is not None else None, gc))
+    return out
+
+
+def parse_ref_answer(line):
+    if not line.startswith('ok'):
+        return None
+    body = line[2:].strip()
+    dumps = []
+    for seg in body.split('|'):
+        seg = seg.strip()
+        if seg.startswith('E'):
+            dumps.append('E')
+            break
+        d = []
+        for tok in seg.split():
+            if tok == '-':
+                continue
+            x, kind, vals, b, g, c = tok.split(':')
+            d.append((int(x), kind, [float(v) for v in vals[1:-1].split(',') if v], int(b[1:]), None if g == 'g-' else int(g[1:]), None if c == 'c-' else int(c[1:])))
+        dumps.append(d)
+    return dumps
+
+
+def ref_oracle(ops, old, new):
+    """the property on the real code, no model: both styles give the same values, the same sharing of memory and the same
+    sharing / equality of grids after every op; copies, pickles and np.array snapshots own their memory; a write through a
+    name is seen by exactly the names that share its memory"""
+    bad = []
+    for k, (a, b) in enumerate(zip(old, new)):
+        if isinstance(a, str) or isinstance(b, str):
+            if isinstance(a, str) != isinstance(b, str) or a != b:
+                bad.append(('ref error-class %s' % ops[k][0], 'op %d %r: old-style %s, new-style %s' % (k, ops[k], a if isinstance(a, str) else 'works', b if isinstance(b, str) else 'works')))
+            break
+        ca, cb = _canon_dump(a), _canon_dump(b)
+        for ea, eb in zip(ca, cb):
+            if ea[2] != eb[2]:
+                bad.append(('ref values %s' % ops[k][0], 'after op %d %r variable %d holds %r with old-style and %r with new-style fields' % (k, ops[k], ea[0], list(ea[2]), list(eb[2]))))
+            elif ea[1] != eb[1] or ea[4] != eb[4] or ea[5] != eb[5]:
+                bad.append(('ref grid %s' % ops[k][0], 'after op %d %r variable %d: kind / grid object / grid content %r with old-style, %r with new-style fields' % (k, ops[k], ea[0], (ea[1], ea[4], ea[5]), (eb[1], eb[4], eb[5]))))
+            elif ea[3] != eb[3]:
+                bad.append(('ref sharing %s' % ops[k][0], 'after op %d %r variable %d shares memory differently: class %d with old-style, %d with new-style fields' % (k, ops[k], ea[0], ea[3], eb[3])))
+        if bad:
+            break
+    # contract of the op itself, per style
+    for mode, run in (('old', old), ('new', new)):
+        for k, d in enumerate(run):
+            if isinstance(d, str):
+                break
+            o = ops[k]
+            ent = {e[0]: e for e in d}
+            if o[0] in ('C', 'P', 'Y') and o[1] != o[2]:
+                y, x = ent[o[1]], ent[o[2]]
+                others = [e for e in d if e[0] != o[1] and e[3] == y[3]]
+                if others:
+                    bad.append(('ref not-fresh %s %s' % (mode, o[0]), 'op %d %r with %s-style fields: the result shares memory with variable %d' % (k, o, mode, others[0][0])))
+                if y[2] != x[2]:
+                    bad.append(('ref values %s %s' % (mode, o[0]), 'op %d %r with %s-style fields: the result holds %r, the source %r' % (k, o, mode, y[2], x[2])))
+                if o[0] == 'C' and y[4] != x[4]:
+                    bad.append(('ref grid %s C' % mode, 'op %d %r with %s-style fields: the copy is not on the grid object of the source' % (k, o, mode)))
+                if o[0] == 'P' and x[4] is not None and (y[4] is None or y[4] == x[4] or y[5] != x[5]):
+                    bad.append(('ref grid %s P' % mode, 'op %d %r with %s-style fields: the unpickled field must be on a new, equal grid' % (k, o, mode)))
+            if o[0] in ('A', 'S', 'V') and o[1] != o[2] and o[1] in ent and o[2] in ent and not (o[0] == 'S' and o[5] == 0):
+                if ent[o[1]][3] != ent[o[2]][3]:
+                    bad.append(('ref not-shared %s %s' % (mode, o[0]), 'op %d %r with %s-style fields: the result does not share the memory of its source' % (k, o, mode)))
+            if o[0] in ('W', 'I') and k > 0 and not isinstance(run[k - 1], str):
+                before = {e[0]: e for e in run[k - 1]}
+                xb = before[o[1]]
+                for e in d:
+                    if e[0] in before and before[e[0]][3] != xb[3] and before[e[0]][2] != e[2]:
+                        bad.append(('ref frame %s %s' % (mode, o[0]), 'op %d %r with %s-style fields changed variable %d, which does not share its memory' % (k, o, mode, e[0])))
+                if o[0] == 'W' and ent[o[1]][2][o[2]] != float(o[3]):
+                    bad.append(('ref lost-write %s' % mode, 'op %d %r with %s-style fields: the variable reads %r afterwards' % (k, o, mode, ent[o[1]][2])))
+                if o[0] == 'I' and [v + o[2] for v in xb[2]] != ent[o[1]][2]:
+                    bad.append(('ref lost-write %s' % mode, 'op %d %r with %s-style fields: the variable reads %r afterwards (before: %r)' % (k, o, mode, ent[o[1]][2], xb[2])))
+    return bad
+
+
+def check_ref(ctx, ops, answer=None):
+    old = run_ref_real(ops, False)
+    new = run_ref_real(ops, True)
+    bad = ref_oracle(ops, old, new)
+    if ctx is None:
+        return bad
+    seen = set()
+    for key, what in bad:
+        if key not in seen:
+            seen.add(key)
+            ctx.violation(key, what, {'ref': ops})
+    if answer is not None:
+        model = parse_ref_answer(answer)
+        if model is None:
+            ctx.disagree('C19 ref vs model', 'model rejected %r: %r' % (ref_line(ops), answer[:80]), key='ref rejected')
+        else:
+            for mode, run in (('old', old), ('new', new)):
+                ctx.traces_validated += 1
+                if len(run) != len(model):
+                    ctx.disagree('C19 ref vs model', '%s-style: %d ops observed, model %d (%r)' % (mode, len(run), len(model), ops), key='ref length')
+                    continue
+                for k, (r, m) in enumerate(zip(run, model)):
+                    if isinstance(r, str) or isinstance(m, str):
+                        if isinstance(r, str) != isinstance(m, str):
+                            ctx.disagree('C19 ref vs model', '%s-style op %d %r: code %s, model %s' % (mode, k, ops[k], r if isinstance(r, str) else 'works', m if isinstance(m, str) else 'works'), key='ref error')
+                        break
+                    cr = [e[:5] + (e[5],) for e in _canon_dump(r)]
+                    cm = [(e[0], e[1], tuple(e[2]), e[3], e[4], e[5]) for e in _canon_dump(m)]
+                    if cr != cm:
+                        ctx.disagree('C19 ref vs model', '%s-style after op %d %r: code %r, model %r' % (mode, k, ops[k], cr, cm), key='ref dump %s' % ops[k][0])
+                        break
+    return bad
+
+
+REF_DIRECTED = [
+    # copy / pickle / np.array snapshots, then updates of the field itself
+    [['N', 0, 1, [1, 2, 3, 4]], ['C', 1, 0], ['P', 2, 0], ['Y', 3, 0], ['V', 4, 0], ['A', 5, 0], ['W', 0, 1, 9], ['I', 0, 2]],
+    # views of views, writes through the view and through the root
+    [['N', 0, 2, [1, 2, 3, 4, 5, 6]], ['S', 1, 0, 1, 2, 3], ['S', 2, 1, 1, 1, 2], ['W', 2, 0, -7], ['W', 0, 5, 8], ['I', 1, 1], ['C', 3, 1], ['I', 0, 1]],
+    # two fields on one grid object, pickle makes a new equal grid; rebinding a name
+    [['N', 0, 3, [5, 6]], ['F', 1, 0, [7, 8]], ['P', 2, 1], ['A', 0, 2], ['W', 0, 0, 1], ['Y', 1, 1], ['I', 1, 3]],
+    # conversions of a view; out-of-range write fails under every style
+    [['N', 0, 0, [1, 2, 3]], ['S', 1, 0, 0, 2, 2], ['V', 2, 1], ['Y', 3, 1], ['I', 0, 4], ['P', 4, 2], ['W', 1, 2, 5]],
+]
+
+
+def run_ref_tie(ctx):
+    rng = ctx.rng
+    scripts = [list(sc) for sc in REF_DIRECTED]
+    for _ in range(ctx.scale(250, 4000)):
+        scripts.append(gen_ref_script(rng, int(rng.integers(3, 13))))
+    out = ctx.model([ref_line(sc) for sc in scripts])
+    for sc, ans in zip(scripts, out):
+        check_ref(ctx, sc, ans)
+        ctx.count('ref-scripts')
+        for o in sc:
+            ctx.count('ref-op:' + o[0])
+        ctx.case(None, nontrivial_key=('ref', tuple(o[0] for o in sc)) if len(sc) >= 3 else None)
+    # the model distinguishes the defective wrappers it is used to rule out (Bad.* theorems): slice-copies and array-shares
+    probes = [('badslice', REF_DIRECTED[1]), ('badarray', REF_DIRECTED[0])]
+    ans = ctx.model([ref_line(sc, sty) for sty, sc in probes] + [ref_line(sc) for _, sc in probes])
+    for (sty, sc), a, g in zip(probes, ans[:2], ans[2:]):
+        ctx.traces_validated += 1
+        if a == g:
+            ctx.disagree('C19 ref vs model', 'style %s gives the same trace as the good style on %r' % (sty, sc), key='ref bad-style')
+
+
+# ---------------------------------------------------------------------------------------------
+# the MFT switch model over the concrete kernel of C01's MFT model (driver op `mftk`) against a reused real object
+
+def _psum_values(tok):
+    vals = []
+    for samp in tok.split(';'):
+        z = 0j
+        if samp != '0':
+            for term in samp.split('+'):
+                c, t, r = (Fraction(q) for q in term.split(':'))
+                z += float(c) * np.exp(2j * np.pi * float(t)) * np.exp(1j * float(r))
+        vals.append(z)
+    return np.array(vals)
+
+
+def _rl(l):
+    return '[' + ','.join(str(Fraction(v)) for v in l) + ']'
+
+
+def gen_mftk_case(rng):
+    def coords(n):
+        c = sorted(set(dyadic_small(rng) for _ in range(n + 2)))[:n]
+        return c if len(c) == n else [Fraction(i, 2) for i in range(n)]
+    nx, ny, nu, nv = (int(rng.integers(1, 4)) for _ in range(4))
+    case = {'x': coords(nx), 'y': coords(ny), 'u': coords(nu), 'v': coords(nv)}
+    case['w'] = [dyadic_small(rng, pos=True)] if rng.random() < 0.5 or nx * ny == 1 else [dyadic_small(rng, pos=True) for _ in range(nx * ny)]
+    case['wo'] = [dyadic_small(rng, pos=True)] if rng.random() < 0.5 or nu * nv == 1 else [dyadic_small(rng, pos=True) for _ in range(nu * nv)]
+    script = []
+    for _ in range(int(rng.integers(2, 6))):
+        d = 'f' if rng.random() < 0.6 else 'b'
+        script.append([d, int(rng.choice([64, 128])), int(rng.integers(0, nx * ny if d == 'f' else nu * nv))])
+    case['script'] = script
+    for k in 'xyuv':
+        case[k] = [str(q) for q in case[k]]
+    case['w'] = [str(q) for q in case['w']]; case['wo'] = [str(q) for q in case['wo']]
+    return case
+
+
+def dyadic_small(rng, pos=False):
+    v = Fraction(int(rng.integers(1 if pos else -12, 13)), int(rng.choice([1, 2, 4, 8])))
+    return v if (v != 0 or not pos) else Fraction(1, 2)
+
+
+def mftk_line(case, pre, alloc):
+    return 'C19 mftk %d %d %s %s %s %s %s %s %s' % (pre, alloc, _rl(case['x']), _rl(case['y']), _rl(case['u']), _rl(case['v']), _rl(case['w']), _rl(case['wo']),
+                                                    ' '.join('%s.%d.%d' % (d, p, j) for d, p, j in case['script']))
+
+
+def run_mftk_real(case, pre, alloc, new_style):
+    import hcipy as h
+    fl = lambda l: np.array([float(Fraction(q)) for q in l])
+    def grid(a, b, w):
+        w = fl(w)
+        return h.CartesianGrid(h.SeparatedCoords([fl(a), fl(b)]), weights=(np.float64(w[0]) if len(w) == 1 else w))
+    out = []
+    with config(new_style=new_style, mft_pre=pre, mft_alloc=alloc), warnings.catch_warnings():
+        warnings.simplefilter('error')
+        warnings.filterwarnings('ignore', category=SyntaxWarning)
+        warnings.filterwarnings('ignore', category=DeprecationWarning)
+        gin, gout = grid(case['x'], case['y'], case['w']), grid(case['u'], case['v'], case['wo'])
+        ft = h.MatrixFourierTransform(gin, gout)
+        for d, p, j in case['script']:
+            g = gin if d == 'f' else gout
+            a = np.zeros(g.size, dtype='complex%d' % p)
+            a[j] = 1
+            r = ft.forward(h.Field(a, g)) if d == 'f' else ft.backward(h.Field(a, g))
+            out.append(np.array(np.asarray(r), dtype=complex))
+    return out
+
+
+def check_mftk(ctx, case, answers=None, c01=None):
+    """answers: {(pre, alloc): model answer line}; c01: answers of C01's own executed pipeline per call"""
+    bad = []
+    real = {}
+    for pre in (0, 1):
+        for alloc in (0, 1):
+            for ns in (False, True):
+                try:
+                    real[(pre, alloc, ns)] = run_mftk_real(case, bool(pre), bool(alloc), ns)
+                except MachineryError:
+                    raise
+                except Exception as e:  # noqa (Warning included)
+                    bad.append(('mftk raises pre=%d alloc=%d' % (pre, alloc), 'one MatrixFourierTransform object reused over %r with precompute_matrices=%r, allocate_intermediate=%r, new-style %r: %s: %s' % (
+                        case['script'], bool(pre), bool(alloc), ns, type(e).__name__, str(e)[:100])))
+    ref = real.get((0, 0, False))
+    if ref is not None:
+        for key, out in sorted(real.items()):
+            for i, (a, b) in enumerate(zip(ref, out)):
+                tol = (5e-4 if case['script'][i][1] == 64 else 1e-9) * max(1.0, float(np.max(np.abs(a))))
+                if a.shape != b.shape or float(np.max(np.abs(a - b))) > tol:
+                    bad.append(('mftk values pre=%d alloc=%d' % key[:2], 'call %d %r on one reused MatrixFourierTransform (precompute_matrices=%r, allocate_intermediate=%r, new-style %r) differs from the switch-less object' % (
+                        i, case['script'][i], bool(key[0]), bool(key[1]), key[2])))
+                    break
+    if ctx is None:
+        return bad
+    seen = set()
+    for key, what in bad:
+        if key not in seen:
+            seen.add(key)
+            ctx.violation(key, what, {'mftk': case})
+    if answers:
+        base = answers[(0, 0)]
+        for key, a in sorted(answers.items()):
+            ctx.traces_validated += 1
+            if not a.startswith('ok '):
+                ctx.disagree('C19 mftk vs model', 'model rejected %r' % (mftk_line(case, *key),), key='mftk rejected')
+                return bad
+            if a != base:
+                ctx.disagree('C19 mftk vs model', 'the model over the concrete kernel gives different results for switches %r and (0, 0) on %r' % (key, case), key='mftk switch')
+        segs = [t.strip() for t in base[3:].split('|')]
+        if c01 is not None:
+            for i, (seg, c) in enumerate(zip(segs, c01)):
+                ctx.traces_validated += 1
+                if 'ok ' + seg != c:
+                    ctx.disagree('C19 mftk vs model', 'call %d %r: switch model over mftKern gives %r, C01\'s executed MFT pipeline %r' % (i, case['script'][i], seg[:80], c[:80]), key='mftk vs C01')
+        if ref is not None:
+            for i, (seg, r) in enumerate(zip(segs, ref)):
+                ctx.traces_validated += 1
+                m = _psum_values(seg)
+                if case['script'][i][0] == 'b':
+                    m = m / (2 * np.pi)**2        # `weights_output` of the object = grid weights / (2 pi)^ndim; the model is given the grid weights
+                tol = (5e-4 if case['script'][i][1] == 64 else 1e-9) * max(1.0, float(np.max(np.abs(m))) if m.size else 1.0)
+                if m.shape != r.shape or float(np.max(np.abs(m - r))) > tol:
+                    ctx.disagree('C19 mftk vs model', 'call %d %r of %r: the real MatrixFourierTransform gives %r, the model %r' % (i, case['script'][i], {k: case[k] for k in 'xyuv'}, r[:4], m[:4]), key='mftk values')
+    return bad
+
+
+def run_mftk_tie(ctx):
+    rng = ctx.rng
+    cases = [gen_mftk_case(rng) for _ in range(ctx.scale(12, 120))]
+    lines = []
+    for c in cases:
+        for pre in (0, 1):
+            for alloc in (0, 1):
+                lines.append(mftk_line(c, pre, alloc))
+        for d, p, j in c['script']:
+            lines.append('C01 mft %s %s %s %s %s %s %d' % ('fwd' if d == 'f' else 'bwd', _rl(c['x']), _rl(c['y']), _rl(c['u']), _rl(c['v']), _rl(c['w'] if d == 'f' else c['wo']), j))
+    out = ctx.model(lines)
+    k = 0
+    for c in cases:
+        answers = {}
+        for pre in (0, 1):
+            for alloc in (0, 1):
+                answers[(pre, alloc)] = out[k]; k += 1
+        c01 = out[k:k + len(c['script'])]; k += len(c['script'])
+        check_mftk(ctx, c, answers, c01)
+        ctx.count('mftk-cases')
+        ctx.count('mftk-weights:%s/%s' % ('scalar' if len(c['w']) == 1 else 'array', 'scalar' if len(c['wo']) == 1 else 'array'))
+        ctx.case(None, nontrivial_key=('mftk', tuple(map(tuple, c['script'])), len(c['x']), len(c['y']), len(c['u']), len(c['v'])))
+
+
+# ---------------------------------------------------------------------------------------------
+# the dispatch table (tie T2): which operations the two Field implementations handle and how they re-wrap the result, probed on the
+# running code on every run and written to lean/HcipyVerif/Gen/FieldDispatch.lean; Properties/C19.lean proves over that table that
+# every entry is handled as the model's wrapping policies say and that every elementwise entry keeps the grid under both styles
+
+DISPATCH_REDUCTIONS = ['sum', 'prod', 'mean', 'max', 'min', 'any', 'all']
+DISPATCH_KEEP = ['cumsum', 'cumprod', 'sort', 'argsort', 'astype', 'copy', 'conj']
+NDARRAY_API_SKIP = ('__',)
+
+
+def _obs_of(r, g, wrote=None):
+    if wrote is not None and not wrote:
+        return 'other'
+    if isinstance(r, tuple):
+        return 'tupleFields' if r and all(is_field(x) and x.grid is g for x in r) else 'tupleOther'
+    if is_field(r):
+        return 'field' if r.grid is g else 'fieldOther'
+    if isinstance(r, np.ndarray):
+        return 'plain'
+    if isinstance(r, (np.generic, float, complex, int, bool)):
+        return 'scalar'
+    return 'other'
+
+
+def _dispatch_rows_for_style(new_style):
+    """[(name, kind, args tags, zeroD, obs)] observed with the configured style; deterministic order"""
+    import hcipy as h
+    rows = []
+    with config(new_style=new_style), warnings.catch_warnings(), np.errstate(all='ignore'):
+        warnings.simplefilter('ignore')
+        g = h.make_uniform_grid([4], [1.0])
+        probes = {
+            'd': ([1.5, -2.0, 3.0, 0.5], [2.0, 1.0, 0.5, 4.0], 2.0),
+            'i': ([3, 5, 6, 9], [2, 1, 3, 4], 2),
+            'b': ([True, False, True, True], [False, False, True, True], True),
+        }
+
+        def attempt(fn):
+            try:
+                return fn()
+            except Exception:  # noqa
+                return _RAISED
+
+        def add(name, kind, tags, zero, fn, wrote=None, ref=None):
+            if ref is not None and attempt(ref) is _RAISED:
+                return               # NumPy itself refuses this variant on plain arrays (e.g. `np.less.accumulate`)
+            r = attempt(fn)
+            if r is _RAISED:
+                rows.append((name, kind, tags, zero, 'raised'))
+            else:
+                w = None if wrote is None else bool(attempt(wrote) is True)
+                rows.append((name, kind, tags, zero, _obs_of(r, g, w)))
+
+        ufuncs = sorted((n for n in dir(np) if isinstance(getattr(np, n), np.ufunc) and getattr(np, n).signature is None), key=str)
+        seen = set()
+        for n in ufuncs:
+            uf = getattr(np, n)
+            if uf.__name__ in seen:
+                continue
+            seen.add(uf.__name__)
+            n = uf.__name__
+            # the first probe dtype on which the plain-array call works decides the operands
+            pk = None
+            for k in 'dib':
+                A, B, sc = probes[k]
+                a, b = np.array(A), np.array(B)
+                try:
+                    ref = uf(a) if uf.nin == 1 else uf(a, b)
+                    pk = k
+                    break
+                except Exception:  # noqa
+                    continue
+            if pk is None or uf.nin > 2:
+                continue
+            A, B, sc = probes[pk]
+            a, b = np.array(A), np.array(B)
+            f, f2 = h.Field(np.array(A), g), h.Field(np.array(B), g)
+            f0 = h.Field(np.array(A[0]), g)
+            kind = 'fn ufunc' if uf.nout == 1 else 'fnMulti'
+            F = '(field 0)'
+            if uf.nin == 1:
+                add('%s(f)' % n, kind, [F], False, lambda: uf(f))
+                if uf.nout == 1:
+                    add('%s(f0)' % n, kind, [F], True, lambda: uf(f0))
+                    o = h.Field(np.zeros_like(ref), g)
+                    add('%s(f,out=o)' % n, kind, [F], False, lambda: uf(f, out=o), lambda: bool(np.array_equal(np.asarray(o), ref, equal_nan=True)))
+                    o2 = h.Field(np.zeros_like(ref), g)
+                    m = h.Field(np.array([True, False, True, False]), g)
+                    add('%s(f,out=o,where=m)' % n, kind, [F], False, lambda: uf(f, out=o2, where=m),
+                        lambda: bool(np.array_equal(np.asarray(o2)[::2], ref[::2], equal_nan=True) and not np.any(np.asarray(o2)[1::2])))
+            else:
+                add('%s(f,f)' % n, kind, [F, F], False, lambda: uf(f, f2))
+                add('%s(f,a)' % n, kind, [F, 'plain'], False, lambda: uf(f, b))
+                add('%s(a,f)' % n, kind, ['plain', F], False, lambda: uf(a, f2))
+                add('%s(f,s)' % n, kind, [F, 'scalar'], False, lambda: uf(f, sc))
+                add('%s(s,f)' % n, kind, ['scalar', F], False, lambda: uf(sc, f2))
+                if uf.nout == 1:
+                    add('%s(f0,f0)' % n, kind, [F, F], True, lambda: uf(f0, f0))
+                    o = h.Field(np.zeros_like(ref), g)
+                    add('%s(f,f,out=o)' % n, kind, [F, F], False, lambda: uf(f, f2, out=o), lambda: bool(np.array_equal(np.asarray(o), ref, equal_nan=True)))
+                    o3 = h.Field(np.zeros_like(ref), g)
+                    add('%s(a,a,out=o)' % n, kind, ['plain', 'plain', F], False, lambda: uf(a, b, out=o3), lambda: bool(np.array_equal(np.asarray(o3), ref, equal_nan=True)))
+                    m = h.Field(np.array([True, False, True, False]), g)
+                    o2 = h.Field(np.zeros_like(ref), g)
+                    add('%s(f,f,out=o,where=m)' % n, kind, [F, F], False, lambda: uf(f, f2, out=o2, where=m),
+                        lambda: bool(np.array_equal(np.asarray(o2)[::2], ref[::2], equal_nan=True) and not np.any(np.asarray(o2)[1::2])))
+                    add('%s.accumulate(f)' % n, 'fn ufunc', [F], False, lambda: uf.accumulate(f), ref=lambda: uf.accumulate(a))
+                    add('%s.outer(f,f)' % n, 'fn ufunc', [F, F], False, lambda: uf.outer(f, f2), ref=lambda: uf.outer(a, b))
+                    add('%s.reduce(f)' % n, 'fn reduce', [F], True, lambda: uf.reduce(f), ref=lambda: uf.reduce(a))
+        # reductions with axis / keepdims, as method and as function, on a scalar field and on a 2-vector field
+        f = h.Field(np.array([1.5, -2.0, 3.0, 0.5]), g)
+        T = h.Field(np.array([[1.5, -2.0, 3.0, 0.5], [2.0, 1.0, 0.5, 4.0]]), g)
+        F = '(field 0)'
+        for n in DISPATCH_REDUCTIONS:
+            for spell, call in (('f.%s' % n, lambda x, **kw: getattr(x, n)(**kw)), ('np.%s' % n, lambda x, **kw: getattr(np, n)(x, **kw))):
+                add('%s()' % spell, 'fn reduce', [F], True, lambda: call(f))
+                add('%s(keepdims)' % spell, 'fn reduce', [F], False, lambda: call(f, keepdims=True))
+                add('%s(T,axis=0)' % spell, 'fn reduce', [F], False, lambda: call(T, axis=0))
+                add('%s(T,axis=-1)' % spell, 'fn reduce', [F], False, lambda: call(T, axis=-1))
+                add('%s(T,axis=-1,keepdims)' % spell, 'fn reduce', [F], False, lambda: call(T, axis=-1, keepdims=True))
+                add('%s(T)' % spell, 'fn reduce', [F], True, lambda: call(T))
+        for n in DISPATCH_KEEP:
+            arg = (float,) if n == 'astype' else ()
+            if n != 'sort':          # the method sorts in place and returns None
+                add('f.%s' % n, 'fn keep', [F], False, lambda: getattr(f, n)(*arg))
+            if hasattr(np, n) and n not in ('astype', 'copy'):
+                add('np.%s(f)' % n, 'fn keep', [F], False, lambda: getattr(np, n)(f))
+        add('np.copy(f)', 'fn func', [F], False, lambda: np.copy(f))      # subok=False: the subclass is dropped, the wrapper re-wraps
+        for n in ('argmax', 'argmin'):
+            add('f.%s()' % n, 'fn scalarIf0d', [F], True, lambda: getattr(f, n)())
+            add('T.%s(axis=0)' % n, 'fn scalarIf0d', [F], False, lambda: getattr(T, n)(axis=0))
+        add('np.where(m,f,a)', 'fn func', ['plain', F, 'plain'], False, lambda: np.where(np.array([True, False, True, False]), f, np.zeros(4)))
+        add('np.where(mf,a,a)', 'fn func', [F, 'plain', 'plain'], False, lambda: np.where(f > 0, np.ones(4), np.zeros(4)))
+        # __getitem__: index kinds
+        mask = np.array([True, False, True, True])
+        for name, ix, zero, src in (('f[1]', 1, True, f), ('f[-1]', -1, True, f), ('f[1:3]', slice(1, 3), False, f), ('f[::-2]', slice(None, None, -2), False, f),
+                                    ('f[[0,2]]', [0, 2], False, f), ('f[mask]', mask, False, f), ('f[fieldmask]', None, False, f), ('f[...]', Ellipsis, False, f),
+                                    ('f[None]', None, False, f), ('T[0]', 0, False, T), ('T[:,1]', (slice(None), 1), False, T), ('T[1,2]', (1, 2), True, T),
+                                    ('T[...,1:3]', (Ellipsis, slice(1, 3)), False, T), ('T[:,mask]', (slice(None), mask), False, T)):
+            if name == 'f[fieldmask]':
+                add(name, 'getitem', [F], zero, lambda: f[f > 0])
+            else:
+                add(name, 'getitem', [F], zero, lambda: src[ix])
+        # __setitem__: index kinds x value kinds; the target must hold the values afterwards
+        for name, ix, val in (('f[1]=s', 1, 7.0), ('f[1:3]=a', slice(1, 3), np.array([7.0, 8.0])), ('f[1:3]=f', slice(1, 3), 'field2'), ('f[mask]=s', mask, 7.0),
+                              ('f[[0,2]]=a', [0, 2], np.array([7.0, 8.0])), ('f[...]=s', Ellipsis, 7.0), ('f[fieldmask]=s', 'fieldmask', 7.0), ('T[:,1]=a', (slice(None), 1), np.array([7.0, 8.0])),
+                              ('T[0]=f', 0, 'field4')):
+            src = h.Field(np.array([[1.5, -2.0, 3.0, 0.5], [2.0, 1.0, 0.5, 4.0]]) if name[0] == 'T' else np.array([1.5, -2.0, 3.0, 0.5]), g)
+            ref = np.array(np.asarray(src))
+            v = h.Field(np.array([7.0, 8.0]), g) if isinstance(val, str) and val == 'field2' else h.Field(np.array([7.0, 8.0, 9.0, 10.0]), g) if isinstance(val, str) and val == 'field4' else val
+            i2 = (src > 0) if isinstance(ix, str) else ix
+            ref[np.asarray(i2) if isinstance(ix, str) else ix] = np.asarray(v)
+            def do(src=src, i2=i2, v=v):
+                src[i2] = v
+                return src
+            add(name, 'setitem', [F], False, do, lambda src=src, ref=ref: bool(np.array_equal(np.asarray(src), ref)))
+        # which public ndarray attributes exist on a Field of this style
+        meths = []
+        for n in sorted(dir(np.ndarray)):
+            if n.startswith('_'):
+                continue
+            try:
+                getattr(f, n)
+                meths.append((n, True))
+            except AttributeError:
+                meths.append((n, False))
+            except Exception:  # noqa
+                meths.append((n, True))
+    return rows, meths
+
+
+_RAISED = object()
+
+
+def dispatch_probe():
+    """([(name, kind, tags, zeroD, old obs, new obs)], [(attribute, on old-style, on new-style)])"""
+    ro, mo = _dispatch_rows_for_style(False)
+    rn, mn = _dispatch_rows_for_style(True)
+    if [r[:4] for r in ro] != [r[:4] for r in rn] or [m[0] for m in mo] != [m[0] for m in mn]:
+        raise MachineryError('dispatch probe: the two styles produced different entry lists')
+    # `setitem` entries report `wrote` when the target holds the values
+    def ob(r):
+        return 'wrote' if r[1] == 'setitem' and r[4] in ('field', 'fieldOther') else 'other' if r[1] == 'setitem' and r[4] != 'raised' else r[4]
+    return [(a[0], a[1], a[2], a[3], ob(a), ob(b)) for a, b in zip(ro, rn)], [(a[0], a[1], b[1]) for a, b in zip(mo, mn)]
+
+
+def emit_dispatch(rows, meths):
+    L = ['-- GENERATED by harness/props/c19.py (tie T2) from the running hcipy: every NumPy ufunc (all operand / out= / where= / method variants),',
+         '-- reductions with axis / keepdims, index kinds of __getitem__ / __setitem__ and the public ndarray attributes are probed on an',
+         '-- OldStyleField and a NewStyleField; the observed kind of result is recorded.  Do not edit; `./check C19` rewrites this file',
+         '-- (byte-identical while the code is unchanged).',
+         '', 'import HcipyVerif.Model.FieldDispatch', '', 'namespace HcipyVerif.Gen.FieldDispatch', 'open HcipyVerif.FieldProg HcipyVerif.FieldDispatch', '',
+         '/-- %d probed operations: name, class, operand tags, raw result 0-d?, observed (old-style), observed (new-style) -/' % len(rows),
+         'def table : List Entry := [']
+    for i, (name, kind, tags, zero, o, n) in enumerate(rows):
+        k = {'getitem': '.getitem', 'setitem': '.setitem', 'fnMulti': '.fnMulti'}.get(kind) or '(.fn .%s)' % kind.split()[1]
+        t = '[' + ', '.join('.field 0' if x.startswith('(') else '.' + x for x in tags) + ']'
+        L.append('  ⟨"%s", %s, %s, %s, .%s, .%s⟩%s' % (name, k, t, 'true' if zero else 'false', o, n, ',' if i + 1 < len(rows) else ''))
+    L += [']', '', '/-- public attributes of `numpy.ndarray`: name, present on an OldStyleField, present on a NewStyleField -/', 'def attributes : List Attr := [']
+    for i, (name, o, n) in enumerate(meths):
+        L.append('  ⟨"%s", %s, %s⟩%s' % (name, 'true' if o else 'false', 'true' if n else 'false', ',' if i + 1 < len(meths) else ''))
+    L += [']', '', 'end HcipyVerif.Gen.FieldDispatch', '']
+    return '\n'.join(L)
+
+
+def regenerate(ctx):
+    from harness.props import _poly_ident as pid
+    try:
+        rows, meths = dispatch_probe()
+    except MachineryError:
+        raise
+    except Exception as e:  # noqa
+        ctx.obligation_failures.append({'kind': 't2-exception', 'detail': 'dispatch probe: %s: %s' % (type(e).__name__, e)})
+        return
+    ctx.extra['gen_diff'] = [pid.write_gen('FieldDispatch.lean', emit_dispatch(rows, meths))]
+    ctx.extra['dispatch_table'] = {'entries': len(rows), 'attributes': len(meths)}
+
+
+DISPATCH_ATTR_EXEMPT = ['base', 'byteswap', 'ctypes', 'device', 'dump', 'dumps', 'getfield', 'resize', 'setfield', 'setflags', 'strides', 'to_device', 'tobytes', 'tofile', 'view']
+
+
+def dispatch_oracle(rows, meths):
+    """the property clause on the probed behaviour, no model: an elementwise operation with a Field operand returns a Field on that
+    grid under both styles (0-d results exempt), writes through `out=`, `__setitem__` writes, `__getitem__` keeps the grid"""
+    bad = []
+    for name, kind, tags, zero, o, n in rows:
+        for mode, v in (('old', o), ('new', n)):
+            elementwise = kind in ('fn ufunc', 'fnMulti') and any(t.startswith('(') for t in tags) and not zero
+            if elementwise and v not in ('field', 'tupleFields'):
+                variant = name[len(name.split('(')[0].split('.')[0]):]          # the ufunc's name stripped: `(f,a)`, `.accumulate(f)`, `(f,out=o,where=m)`
+                bad.append(('dispatch grid-lost %s ufunc%s' % (mode, variant), '%s with %s-style fields returns %s instead of a Field on the grid of its Field operand' % (name, mode, v)))
+            elif kind == 'setitem' and v != 'wrote':
+                bad.append(('dispatch setitem %s' % mode, '%s with %s-style fields: %s (the target does not hold the assigned values)' % (name, mode, v)))
+            elif kind == 'getitem' and not zero and v != 'field':
+                bad.append(('dispatch getitem %s' % mode, '%s with %s-style fields returns %s instead of a Field on the same grid' % (name, mode, v)))
+            elif kind in ('fn reduce', 'fn keep') and not zero and v != 'field':
+                bad.append(('dispatch %s %s' % (kind.split()[1], mode), '%s with %s-style fields returns %s instead of a Field on the same grid' % (name, mode, v)))
+        if (o == 'raised') != (n == 'raised'):
+            bad.append(('dispatch raises %s' % ('new' if n == 'raised' else 'old'), '%s works with one Field style and raises with the other (old: %s, new: %s)' % (name, o, n)))
+    for name, o, n in meths:
+        if o and not n and name not in DISPATCH_ATTR_EXEMPT:
+            bad.append(('dispatch missing %s' % name, 'ndarray attribute %r exists on old-style fields and is missing on new-style fields' % name))
+    return bad
+
+
+def run_dispatch_tie(ctx):
+    rows, meths = dispatch_probe()
+    seen = set()
+    for key, what in dispatch_oracle(rows, meths):
+        if key not in seen:
+            seen.add(key)
+            ctx.violation(key, what, {'dispatch': key})
+    ans = ctx.model(['C19 dispatch'])[0]
+    toks = ans.split()
+    ctx.traces_validated += 1
+    if toks[:1] != ['ok'] or len(toks) < 7:
+        ctx.disagree('C19 dispatch vs model', 'model answered %r' % ans[:80], key='dispatch rejected')
+        return
+    # ok <entries> <attributes> <failing entries|-> <missing attributes|-> <elementwise> <keeping the grid> then one `<old>/<new>` prediction per entry
+    if int(toks[1]) != len(rows) or int(toks[2]) != len(meths):
+        ctx.disagree('C19 dispatch vs model', 'the table built into the driver has %s entries / %s attributes, the running code gives %d / %d' % (toks[1], toks[2], len(rows), len(meths)), key='dispatch stale')
+        return
+    if toks[3] != '-' or toks[4] != '-':
+        ctx.disagree('C19 dispatch vs model', 'entries not handled as the wrapping policies of the model say: %s; attributes missing on the wrapper: %s' % (toks[3], toks[4]), key='dispatch table')
+    # number of elementwise entries (ufunc class, a Field operand, array result) and of those that keep the grid, as the model counts them
+    n_ew = sum(1 for name, kind, tags, zero, o, n in rows if kind in ('fn ufunc', 'fnMulti') and any(t.startswith('(') for t in tags) and not zero)
+    n_kept = sum(1 for name, kind, tags, zero, o, n in rows if kind in ('fn ufunc', 'fnMulti') and any(t.startswith('(') for t in tags) and not zero
+                 and o in ('field', 'tupleFields') and n in ('field', 'tupleFields'))
+    ctx.traces_validated += 1
+    if [int(toks[5]), int(toks[6])] != [n_ew, n_kept]:
+        ctx.disagree('C19 dispatch vs model', 'elementwise entries / keeping the grid: model %s / %s, running code %d / %d' % (toks[5], toks[6], n_ew, n_kept), key='dispatch elementwise')
+    ctx.count('dispatch-elementwise', n_ew)
+    for (name, kind, tags, zero, o, n), pred in zip(rows, toks[7:]):
+        ctx.traces_validated += 1
+        ctx.count('dispatch:' + kind)
+        if pred != '%s/%s' % (o, n):
+            ctx.disagree('C19 dispatch vs model', '%s: the running code gives %s/%s (old/new), the model\'s policies predict %s' % (name, o, n, pred), key='dispatch ' + kind)
+    ctx.count('dispatch-attributes', len(meths))
+    ctx.case(None, nontrivial_key=('dispatch', len(rows)))
+
+
 def check_program(ctx, prog, label):
     plain = run_program(prog, 'plain')
     old = run_program(prog, 'old')
@@ -3221,7 +4033,7 @@ def run(ctx):
 
 def _run(ctx):
     rng = ctx.rng
-    progs = [(p, 'directed') for p in DIRECTED + _shared_buffer_corpus()]
+    progs = [(p, 'directed') for p in DIRECTED + _shared_buffer_corpus() + _conversion_corpus()]
     n_core = ctx.scale(1500, 25000)
     n_ext = ctx.scale(1200, 18000)
     for k in range(n_core):
@@ -3271,6 +4083,9 @@ def _run(ctx):
     run_weighted_sweep(ctx, default)
     run_select_tie(ctx)
     run_cache_tie(ctx)
+    run_ref_tie(ctx)
+    run_mftk_tie(ctx)
+    run_dispatch_tie(ctx)
 
 
 def run_reuse_sweep(ctx, default):
@@ -3280,9 +4095,9 @@ def run_reuse_sweep(ctx, default):
     for name in sorted(makers):
         relevant = makers[name][1]
         combos = reuse_combos(relevant, thorough)
-        scripts = [list(sc) for sc in DIRECTED_SCRIPTS[:(2 if thorough or name in ('mft2d', 'fft', 'filter') else 1)]]
-        for _ in range(ctx.scale(1 if name in ('nft', 'zoom', 'auto', 'mft1d', 'fft1d') else 2, 8)):
-            scripts.append(gen_script(rng, int(rng.integers(5, 11)), complex_only=(name == 'filter')))
+        scripts = [list(sc) for sc in DIRECTED_SCRIPTS[:(2 if thorough or name in ('mft2d', 'fft', 'filter', 'filter1d') else 1)]]
+        for _ in range(ctx.scale(1 if name in ('nft', 'zoom', 'auto', 'mft1d', 'fft1d', 'fftq') else 2, 8)):
+            scripts.append(gen_script(rng, int(rng.integers(5, 11)), complex_only=(name in ('filter', 'filter1d'))))
         for script in scripts:
             params = {'n': int(rng.choice([6, 8, 9, 12, 16])), 'q': int(rng.integers(1, 4)), 'nairy': int(rng.integers(2, 6)), 'odd': int(rng.integers(0, 2))}
             bad = check_reuse(name, params, script, combos, default)
@@ -3313,6 +4128,21 @@ def replay(ctx, case):
         with config(method=case['select_real_big']):
             b = F.fft2(x)
         return bool(a.dtype == b.dtype and np.max(np.abs(a - b)) <= 2e-4 * np.max(np.abs(a)))
+    if 'dispatch' in case:
+        bad = [b for b in dispatch_oracle(*dispatch_probe()) if b[0] == case['dispatch']]
+        for key, what in bad:
+            print('  fails:', key, '-', what)
+        return not bad
+    if 'ref' in case:
+        bad = check_ref(None, case['ref'])
+        for key, what in bad:
+            print('  fails:', key, '-', what)
+        return not bad
+    if 'mftk' in case:
+        bad = check_mftk(None, case['mftk'])
+        for key, what in bad:
+            print('  fails:', key, '-', what)
+        return not bad
     if 'cache' in case:
         rows, bad = check_cache(None, case['cache'], case['params'], case['pre'], case['alloc'], case['via_config'], case['new_style'], case['script'])
         for key, what in bad:
